@@ -55,3 +55,11 @@ func init() {
 		fmt.Println(kinds)
 	}
 }
+
+func init() {
+	surveyFns["C02bounds"] = func(w *World, arg string) {
+		_, scope, _ := c02Scope(w)
+		lenAtLeast = map[string]string{"len(cp.CPSUri)": "len(cp.PolicyIdentifiers)"}
+		boundsSurvey(w, scope)
+	}
+}
